@@ -10,11 +10,12 @@
     recorded outputs.
 """
 import json
+import os
 
 import vlib
 import vknown
 
-ALL_DEVS = ["UpperACE", "LowerDenorm", "IsASCII128"]
+ALL_DEVS = ["UpperACE", "LowerDenorm", "LowerFirst", "IsASCII128"]
 
 MC_CFG = """SPECIFICATION Spec
 CONSTANTS
@@ -37,12 +38,36 @@ POSTCONDITION Post
 """
 
 
+
+def wk(n):
+    """TLC worker threads: n, capped by VERIF_TLC_WORKERS_MAX (for a machine shared with other runs)"""
+    return max(1, min(n, int(os.environ.get("VERIF_TLC_WORKERS_MAX") or n)))
+
+
 def q(names):
     return ", ".join('"%s"' % n for n in names)
 
 
 def ident(a):
     return (a["lp"]["b"],) + tuple(l["b"] for l in a["dom"])
+
+
+ROOT = {"b": "root", "s": "lower"}
+
+
+def rooted(a):
+    return a["dom"][-1] == ROOT
+
+
+def unrooted_ident(a):
+    """the address regardless of the root label (FQDN spelling)"""
+    i = ident(a)
+    return i[:-1] if rooted(a) else i
+
+
+def noncanon(a):
+    """number of components not spelled canonically"""
+    return (a["lp"]["s"] != "lower") + sum(1 for l in a["dom"] if l["s"] != "lower")
 
 
 def variant(a):
@@ -62,19 +87,19 @@ def run(ctx, replay):
         cases = [dict(obj["case"], id=1)]
     else:
         # ---- (T) the laws hold on the model ---------------------------------------
-        ra = ctx.tlc_expect_ok("Address", None, name="mc-algebra", workers=16, timeout=900,
+        ra = ctx.tlc_expect_ok("Address", None, name="mc-algebra", workers=wk(16), timeout=900,
                                cfg_text=MC_CFG % dict(devs="", layer="algebra", strlen=0, gen="TRUE",
                                                       inv="AlgebraLaws Emit"))
         addrs = [v for tag, v in ra["printed"] if tag == "ROW"]
         n_str = 5 if thorough else 3
         n_rows = 4 if thorough else 3
         # quick: the model-checking run is also the one that prints the string rows
-        rs = ctx.tlc_expect_ok("Address", None, name="mc-string", workers=16, timeout=2400,
+        rs = ctx.tlc_expect_ok("Address", None, name="mc-string", workers=wk(16), timeout=2400,
                                cfg_text=MC_CFG % dict(devs="", layer="string", strlen=n_str,
                                                       gen="TRUE" if n_str == n_rows else "FALSE",
                                                       inv="StringLaws Emit"))
         # comparison of arbitrary strings (malformed operands included): all pairs, look-alike triples
-        rp = ctx.tlc_expect_ok("Address", None, name="mc-string2", workers=8, timeout=600,
+        rp = ctx.tlc_expect_ok("Address", None, name="mc-string2", workers=wk(8), timeout=600,
                                cfg_text=MC_CFG % dict(devs="", layer="string2", strlen=2, gen="TRUE",
                                                       inv="CompareLaws EmitOrbit Emit"))
         strs2 = [v for tag, v in rp["printed"] if tag == "ROW"]
@@ -82,7 +107,7 @@ def run(ctx, replay):
         if orbit is None or len(strs2) != rp["distinct"]:
             raise vlib.Infra("string2 run printed %d rows for %d states, orbit=%s" % (len(strs2), rp["distinct"], orbit))
         # degenerate domains (bare ACE prefix, "xn---", ...): crash-freedom
-        rd = ctx.tlc_expect_ok("Address", None, name="mc-domain", workers=8, timeout=600,
+        rd = ctx.tlc_expect_ok("Address", None, name="mc-domain", workers=wk(8), timeout=600,
                                cfg_text=MC_CFG % dict(devs="", layer="domain", strlen=4 if thorough else 3,
                                                       gen="TRUE", inv="DomainLaws Emit"))
         doms = [v for tag, v in rd["printed"] if tag == "ROW"]
@@ -102,7 +127,7 @@ def run(ctx, replay):
         seen = {}
         for d in ALL_DEVS:
             layer, inv = ("string", "StringLaws") if d == "IsASCII128" else ("algebra", "AlgebraLaws")
-            rd = ctx.tlc("Address", None, name="asis-" + d, workers=4, timeout=300,
+            rd = ctx.tlc("Address", None, name="asis-" + d, workers=wk(4), timeout=300,
                          cfg_text=MC_CFG % dict(devs=q([d]), layer=layer, strlen=2, gen="FALSE", inv=inv))
             if rd["invariant"] != inv:
                 raise vlib.Infra("as-is model with deviation %s violates nothing (%s %s): the laws are vacuous"
@@ -112,7 +137,7 @@ def run(ctx, replay):
 
         # ---- the case list ---------------------------------------------------------
         rg = rs if n_str == n_rows else ctx.tlc_expect_ok(
-            "Address", None, name="gen-string", workers=16, timeout=1200,
+            "Address", None, name="gen-string", workers=wk(16), timeout=1200,
             cfg_text=MC_CFG % dict(devs="", layer="string", strlen=n_rows, gen="TRUE", inv="Emit"))
         strings = [v for tag, v in rg["printed"] if tag == "ROW"]
         if len(strings) != rg["distinct"]:
@@ -138,18 +163,41 @@ def run(ctx, replay):
         for a in addrs:
             by_id.setdefault(ident(a), []).append(a)
         same_pairs = [(a, b) for cl in by_id.values() for a in cl for b in cl]
+        # the same address without / with the root label (FQDN spelling): one key is not demanded
+        # across the two (Address.tla), comparison = key equality, symmetry, transitivity are
+        by_uid = {}
+        for a in addrs:
+            by_uid.setdefault(unrooted_ident(a), []).append(a)
+        root_pairs = [(a, b) for cl in by_uid.values() for a in cl for b in cl if rooted(a) != rooted(b)]
+        # every single step, deterministically: the canonical spelling of every address next to each spelling
+        # that differs from it in one component, and each of these (canonical or one step away) next to itself
+        # written the other way with respect to the root label
+        near = [a for a in addrs if noncanon(a) <= 1]
+        canon = {ident(a): a for a in addrs if noncanon(a) == 0}
+        step_pairs = [(canon[ident(a)], a) for a in near if noncanon(a) == 1]
+        flip = {(json.dumps(a["lp"]), json.dumps(a["dom"])): a for a in addrs}
+        step_pairs += [(a, flip[(json.dumps(a["lp"]), json.dumps(a["dom"] + [ROOT]))]) for a in near if not rooted(a)]
         rng = ctx.rng
         if thorough:
-            pairs = same_pairs + [(rng.choice(addrs), rng.choice(addrs)) for _ in range(20000)]
+            pairs = ([p for p in same_pairs if not rooted(p[0])] + step_pairs
+                     + vlib.sample(rng, [p for p in same_pairs if rooted(p[0])], 15000)
+                     + vlib.sample(rng, root_pairs, 30000)
+                     + [(rng.choice(addrs), rng.choice(addrs)) for _ in range(20000)])
             n_tr = 20000
         else:
-            pairs = vlib.sample(rng, same_pairs, 3000) + [(rng.choice(addrs), rng.choice(addrs)) for _ in range(1000)]
+            pairs = (step_pairs + vlib.sample(rng, same_pairs, 1500) + vlib.sample(rng, root_pairs, 800)
+                     + [(rng.choice(addrs), rng.choice(addrs)) for _ in range(600)])
             n_tr = 1500
+        ctx.cov["pairs_single_step"] = len(step_pairs)
         triples = []
         classes = sorted(by_id)
+        uclasses = sorted(by_uid)
         for i in range(n_tr):
             if i % 4 == 3:
                 triples.append((rng.choice(addrs), rng.choice(addrs), rng.choice(addrs)))
+            elif i % 4 == 2:
+                cl = by_uid[rng.choice(uclasses)]       # one address, with and without the root label
+                triples.append((rng.choice(cl), rng.choice(cl), rng.choice(cl)))
             else:
                 cl = by_id[rng.choice(classes)]
                 triples.append((rng.choice(cl), rng.choice(cl), rng.choice(cl)))
@@ -166,6 +214,12 @@ def run(ctx, replay):
                 if json.dumps((x, y)) not in seen_p:
                     seen_p.add(json.dumps((x, y)))
                     spairs.append((x, y))
+        # a string next to itself followed by a dot (a bare domain and its FQDN spelling for dns.Equal)
+        for x in strs2:
+            y = x + ["dot"]
+            if y in strs2 and json.dumps((x, y)) not in seen_p:
+                seen_p.add(json.dumps((x, y)))
+                spairs.append((x, y))
         if thorough:
             spairs += [(x, y) for x in strs2 for y in strs2 if json.dumps((x, y)) not in seen_p]
         else:
@@ -188,7 +242,10 @@ def run(ctx, replay):
             cases.append({"kind": "P2", "in": {"s": x, "t": y}})
         for x, y, z in striples:
             cases.append({"kind": "P3", "in": {"s": x, "t": y, "u": z}})
-        for a in addrs:
+        # the unary laws: every address; of those written with the root label a seeded sample in quick
+        a1 = addrs if thorough else ([a for a in addrs if not rooted(a)]
+                                     + vlib.sample(rng, [a for a in addrs if rooted(a)], 400))
+        for a in a1:
             cases.append({"kind": "A1", "in": {"a": a}})
         for a, b in pairs:
             cases.append({"kind": "A2", "in": {"a": a, "b": b}})
@@ -285,8 +342,11 @@ def run(ctx, replay):
     ctx.cov["distinct_nontrivial"] = len(distinct)
     ctx.cov["violated_predicates"] = preds
     ctx.cov["rule"] = ("A1 = every address of Address.tla (local part x label x tld in every spelling of the table); "
-                       "A2 = ordered pairs inside one identity class (all in thorough, seeded sample in quick) plus "
-                       "random cross pairs; A3 = seeded triples (3/4 inside one class); S = every symbol string up "
+                       "addresses also written with the root label (FQDN spelling, trailing dot; A1 on a seeded sample of those in quick); "
+                       "A2 = every single step (canonical spelling next to each spelling one component away; each of these next "
+                       "to itself with the root label), ordered pairs inside one identity class (all unrooted in thorough, seeded "
+                       "sample in quick), pairs of one address without / with the root label, random cross pairs; "
+                       "A3 = seeded triples (1/2 inside one class, 1/4 one address without / with the root label); S = every symbol string up "
                        "to length 3 (quick) / 4 (thorough) printed by TLC plus TLC -simulate strings up to length 6; "
                        "D = every domain up to 3 (quick) / 4 (thorough) symbols over the degenerate-A-label alphabet, tried bare, "
                        "behind a plain and behind a quoted local part (crash-freedom); "
@@ -304,8 +364,11 @@ def run(ctx, replay):
     ctx.assumptions += [
         "golang.org/x/text (NFC/NFD, case mapping) and golang.org/x/net/idna (Punycode) are trusted: the harness "
         "table derives every spelling from the canonical string with them and checks that it folds back",
-        "the model knows only the spellings of its table (5 label bases, 4 local-part bases, 1 tld); laws about "
+        "the model knows only the spellings of its table (10 label bases, 6 local-part bases, 2 last labels, root label); laws about "
         "valid addresses are evaluated on these generated addresses only, crash-freedom on every row",
+        "letter-case variants are those of strings.ToLower (simple case mapping: U+0130 lower-cases to i); the root label "
+        "(trailing dot) is not among the variants the statement lists: one key is demanded only between addresses written "
+        "alike in this respect, Equal <=> equal keys, symmetry and transitivity also across it",
         "outputs are abstracted back to (base, spelling) through the inverse table, which is checked to be injective",
         "reading of the statement: 'comparison is an equivalence relation that coincides with equality of lookup "
         "keys' carries no restriction to valid addresses and is evaluated on arbitrary (also malformed) strings "
@@ -324,7 +387,8 @@ META = {
                  "functions; recorded rows evaluated by TLC against AddressTrace.tla",
     "text": "TLC checks reflexivity, symmetry, transitivity, Equal <=> equal keys, one key per identity, idempotence of "
             "ForLookup/CleanDomain/dns.ForLookup, ASCII/Unicode round trips, split/join, quote/unquote and IsASCII <=> "
-            "all code points < U+0080 on the model (528 addresses, all pairs, class triples; every symbol string up to "
+            "all code points < U+0080 on the model (2932 addresses incl. the FQDN spelling with the root dot and the dotted capital I "
+            "composed / decomposed, all pairs, class triples; every symbol string up to "
             "length 3 quick / 5 thorough) and evaluates the same laws on the outputs of the real functions for every "
             "address, sampled (quick) or all same-identity (thorough) pairs, sampled triples and every symbol string up "
             "to length 3 (quick) / 4 (thorough) plus simulated longer ones; crash-freedom via recover on every row.",
